@@ -138,6 +138,7 @@ type world struct {
 
 	req3Variants                         [][]byte // honest requests for the empty origin, 31/32/33/64-byte origins, an unregistered origin
 	req1, req2, req3, req5, reqB         []byte
+	reqBMany                             [][]byte // batches with many failing entries
 	resp1, resp2, resp3, resp5, respB    []byte
 	tok1, tok2, tok3, tok5               []byte
 	challenge, encap, inner, spki        []byte
@@ -292,6 +293,25 @@ func theWorld() *world {
 		br, err := batched.NewBasicClient().CreateTokenRequest([]tokens.TokenRequestWithDetails{x.bst1.Request(), x.bst2.Request()})
 		must(err)
 		x.reqB = br.Marshal()
+		// batches in which MANY entries fail (well-formed requests the issuers refuse): 70 and 300 type-1 requests with
+		// the right key id and an element that is no curve point, and the same with unknown key ids, each followed by one good request
+		for _, n := range []int{70, 300} {
+			for _, unknownKey := range []bool{false, true} {
+				var body []byte
+				for i := 0; i < n; i++ {
+					bad := append([]byte{}, x.bst1.Request().Marshal()...)
+					for j := 4; j < len(bad); j++ {
+						bad[j] = 0xff
+					}
+					if unknownKey {
+						bad[2] ^= byte(1 + i%200)
+					}
+					body = append(body, bad...)
+				}
+				body = append(body, x.bst1.Request().Marshal()...)
+				x.reqBMany = append(x.reqBMany, ref.EncodeBatchRequest([][]byte{body}))
+			}
+		}
 		x.respB, err = x.batchIssuer.EvaluateBatch(br)
 		must(err)
 
@@ -434,7 +454,7 @@ func allTargets() []*target {
 					_ = k.Marshal()
 				}
 			}})
-		add(&target{name: "batched.TokenRequest.Unmarshal+EvaluateBatch", heavy: true, fields: []int{0, 1, 2, 3, 4, 54, 55, 56}, seeds: [][]byte{x.reqB}, layout: layoutVarintThenRest(0),
+		add(&target{name: "batched.TokenRequest.Unmarshal+EvaluateBatch", heavy: true, fields: []int{0, 1, 2, 3, 4, 54, 55, 56}, seeds: append([][]byte{x.reqB}, x.reqBMany...), layout: layoutVarintThenRest(0),
 			run: func(in []byte) {
 				r := new(batched.BatchedTokenRequest)
 				if r.Unmarshal(in) {
@@ -571,6 +591,7 @@ func checkInput(tg *target, in []byte, meter bool) error {
 	} else {
 		o = rt.GuardLite(func() { tg.run(in) })
 	}
+	rt.Returned()
 	if o.Panic != nil {
 		return fmt.Errorf("C03/%s/panic input %s: panic: %v\n%s", tg.name, rt.Hex(in), o.Panic, trimStack(o.Stack))
 	}
